@@ -60,6 +60,31 @@ def corpus(tier, seed):
     return [(gid, g, tags | ({"meta"} if has_meta(g) else set())) for gid, g, tags in corpus0(tier, seed)]
 
 
+def structured_family():
+    """Indirect left recursion through a cycle of k unit productions, with a chain of m unit
+    productions below it ending in a terminal and/or EMPTY, used in one or two contexts:
+    the classic stress shapes for closure / lookahead propagation fix points."""
+    out = []
+    for k in (1, 2, 3, 4):
+        for m in (0, 1, 2, 3):
+            for end in ("Te | ", "", "Te"):
+                for ctx in (1, 2):
+                    rules = ["S: A Tx" + (" | Tq A Ty" if ctx == 2 else "")]
+                    cyc = ["A"] + ["C%d" % i for i in range(1, k)]
+                    for i in range(len(cyc) - 1):
+                        rules.append("%s: %s" % (cyc[i], cyc[i + 1]))
+                    chain = ["D%d" % i for i in range(m)]
+                    below = chain[0] if chain else None
+                    last_alt = "A Ty" + (" | " + below if below else (" | " + end if end != "" else " | "))
+                    rules.append("%s: %s" % (cyc[-1], last_alt))
+                    for i in range(len(chain)):
+                        nxt = chain[i + 1] if i + 1 < len(chain) else None
+                        rules.append("%s: %s" % (chain[i], nxt if nxt else (end if end else "")))
+                    out.append(("cyc%d_chain%d_%s_ctx%d" % (k, m, {"Te | ": "te", "": "e", "Te": "t"}[end], ctx),
+                                G.G("; ".join(rules))))
+    return out
+
+
 def corpus0(tier, seed):
     """[(gid, grammar, tags)] -- curated shapes always, plus seeded slices of the
     enumerable family and seeded random grammars."""
@@ -68,6 +93,8 @@ def corpus0(tier, seed):
         out.append(("cur:" + name, g, {"curated"}))
     for name, g in G.ANNOTATED:
         out.append(("ann:" + name, g, {"annotated", "meta"}))
+    for name, g in structured_family():
+        out.append(("str:" + name, g, {"curated", "structured"}))
     rng = random.Random(seed * 7919 + 11)
     nfam = 150 if tier == "quick" else 2500
     fam = [g for g in G.family(2, 2, 3, 2) if G.useful(g)]
@@ -241,6 +268,16 @@ def stage_lr(work, tier, seed):
             gtext[cid] = text
             cases.append({"id": cid, "grammar": text, "cfg": {"algo": "lr", "tt": tt},
                           "meta": {"nodis": bool(nod), "plain": "meta" not in tags}, "inputs": ins})
+            # the same inputs once more through ONE parser instance (parse() called
+            # repeatedly, also after failed parses)
+            if tt == "pager" and (len(cases) % 3 == 0 or "curated" in tags):
+                rid = "%s+reuse|%s" % (gid, tt)
+                seq = [dict(x) for x in ins if not x["partial"] and x.get("lexer") != "any"]
+                gtext[rid] = text
+                for x in seq:
+                    inputs["%s#%d" % (rid, x["iid"])] = [x["text"], x["lex"]]
+                cases.append({"id": rid, "grammar": text, "cfg": {"algo": "lr", "tt": tt}, "reuse": True,
+                              "meta": {"nodis": bool(nod), "plain": "meta" not in tags}, "inputs": seq})
     pres = run.run_vdrive(work, "lr", cases)
     envs = [{"DUMPS": p + ".dumps.ndjson", "TRACES": p + ".traces.ndjson"} for p in pres
             if os.path.getsize(p + ".traces.ndjson") > 0]
